@@ -140,6 +140,39 @@ def units_cases(seed=0, reduced=False):
     return bad, n
 
 
+def history_cases(seed=0):
+    """a device object with a history (scales read, a solve, then its layer changed in place) must simulate exactly like a freshly built equal
+    device: same scales, same recorded arrays"""
+    import tdgl
+    logging.disable(logging.CRITICAL)
+    bad, n = [], 0
+    with tempfile.TemporaryDirectory() as td:
+        d1 = make_device()
+        _ = d1.K0, d1.A0, d1.Bc2
+        o = lambda nm: tdgl.SolverOptions(solve_time=0.3, save_every=20, output_file=os.path.join(td, nm))
+        tdgl.solve(d1, o("h0.h5"), applied_vector_potential=0.2, terminal_currents=dict(source=2.0, drain=-2.0))
+        for attr, fac in (("london_lambda", 2.0), ("coherence_length", 1.0), ("thickness", 0.5)):
+            setattr(d1.layer, attr, getattr(d1.layer, attr) * fac)
+        d2 = make_device()
+        for attr in ("london_lambda", "coherence_length", "thickness"):
+            setattr(d2.layer, attr, getattr(d1.layer, attr))
+        d2.mesh = d1.mesh
+        n += 1
+        for nm in ("K0", "A0", "Bc2"):
+            a, b = getattr(d1, nm).to_base_units().magnitude, getattr(d2, nm).to_base_units().magnitude
+            if a != b:
+                bad.append(dict(what=f"{nm} of a device whose layer was changed in place differs from {nm} of a fresh equal device", with_history=float(a), fresh=float(b)))
+        s1 = tdgl.solve(d1, o("h1.h5"), applied_vector_potential=0.2, terminal_currents=dict(source=2.0, drain=-2.0))
+        s2 = tdgl.solve(d2, o("h2.h5"), applied_vector_potential=0.2, terminal_currents=dict(source=2.0, drain=-2.0))
+        n += 1
+        for nm in ("psi", "mu", "supercurrent", "normal_current"):
+            if not np.array_equal(getattr(s1.tdgl_data, nm), getattr(s2.tdgl_data, nm)):
+                bad.append(dict(what=f"recorded {nm} of the device with history differs from the fresh equal device", max_abs_diff=float(np.abs(getattr(s1.tdgl_data, nm) - getattr(s2.tdgl_data, nm)).max())))
+                break
+    logging.disable(logging.NOTSET)
+    return bad, n
+
+
 def reject_cases(seed=0):
     """ill-posed problems must raise before anything is written"""
     import tdgl
